@@ -235,6 +235,23 @@ CLAIMED = {
         "the implementation; np.linalg.lstsq observed through its results; dynamic-node translate is covered by C01.",
         "DESIGN.md section 5, C13",
     ),
+    "C16": (
+        "Coq proofs (div/mod layout arithmetic: the ensemble slices partition [0,d) in order, neuron slices partition "
+        "[0, npd*d) in the same order, function outputs concatenate in dimension order) about a hand-written executable model; "
+        "structure of the built graph compared with the model in Coq; behaviour checked by Direct-mode and rate simulation",
+        "Theorems for all dimensions d and subdimensions sub | d, both representation modes: the input/output slices of the "
+        "ensembles cover every dimension exactly once in order (so with ideal neurons the module is the identity map), the "
+        "neuron-level input and output slices (same function of the layout) cover every neuron exactly once in ensemble "
+        "order, per-ensemble function outputs are concatenated in dimension order, non-divisible dimensionalities are "
+        "rejected. PARTIAL: 'ideal neurons', holding with feedback 1 and the independence of neurons are runtime behaviour "
+        "of Nengo: checked by Direct-mode simulation of every split at d <= 8 (thorough 16), a feedback run, and seeded "
+        "LIFRate runs (inhibit all / drive one entry). Tie: every (d, sub) with sub | d, d <= 24 (thorough 64): slices, "
+        "ensemble sizes, neuron slices, add_output slices read from the built graph. One defect (add_output on degenerate "
+        "splits) found and repaired.",
+        "Trusted: Coq kernel; Model/IdEnsArray.v; Nengo's connection semantics and Direct / LIFRate neuron models; harness "
+        "graph reader.",
+        "DESIGN.md section 5, C16",
+    ),
 }
 
 NOT_YET = "not yet built in this revision of /verif (design in DESIGN.md section 5); no check is claimed"
